@@ -447,7 +447,7 @@ def _handback_clause(res, hidden, case, what):
     res.clauses['C17.handback'] += 1
     pp = cssutils.prodparser
     pp.savedTokens[:] = [tuple(t) for t in saved]
-    pp.tokenizer._pushed = [tuple(t) for t in pushed]
+    pp.tokenizer._pushed = itertools.chain([tuple(t) for t in pushed], [])
     try:
         got = MediaList('tv').mediaText
     except Exception as e:
@@ -1059,8 +1059,8 @@ def _judge_qlist(res, case):
             res.violation('C17.qlist.intact', f'{_content_symptom(impl, mod)}|{dev}', dict(case, text=text), exp, [o['text'], o['length']])
             return
         c = dict(case, text=text)
-        _count_clause(res, o, c, dev)
-        _reparse_clause(res, o, c)
+        if _count_clause(res, o, c, dev):
+            _reparse_clause(res, o, c)
         _wellformed_clause(res, o, c)
 
 
